@@ -13,6 +13,8 @@
 #include "main.h"
 #include "Inlines.h"
 #include "PLC.h"
+#include "pitch_est_defines.h"
+#include "tables.h"
 
 void verif_decode_core(silk_decoder_state *psDec, silk_decoder_control *psDecCtrl, opus_int16 xq[],
                        const opus_int16 pulses[MAX_FRAME_LENGTH], int arch);
@@ -355,10 +357,67 @@ static void run_frames(uint64_t seed, long nhist)
    free(st);
 }
 
+/* ------------------------------------------------------------------ silk_decode_parameters */
+void verif_decode_parameters(silk_decoder_state *psDec, silk_decoder_control *psDecCtrl, opus_int condCoding);
+static const char *const par_names[] = {"GainsIndices", "Gains_Q16", "NLSFIndices", "PredCoef_Q12", "prevNLSF_Q15", "pitchL", "LTPIndex",
+                                        "LTP_vq_0", "LTP_vq_1", "LTP_vq_2", "LTPCoef_Q14"};
+static void run_params(uint64_t seed, long n)
+{
+   static const int fss[3] = {8, 12, 16};
+   vrng r; long c; int i, k;
+   silk_decoder_state *st = (silk_decoder_state *)calloc(1, sizeof(*st));
+   silk_decoder_control *ctl = (silk_decoder_control *)calloc(1, sizeof(*ctl));
+   r.s = seed * 0xD1342543DE82EF95ULL + 99;
+   for (c = 0; c < n; c++) {
+      int fs = fss[vbelow(&r, 3)], nb = vchance(&r, 50) ? 2 : 4, sig, per, v = 0, cond = (int)vbelow(&r, 2), ncb;
+      silk_init_decoder(st); st->nb_subfr = nb; silk_decoder_set_fs(st, fs, 48000);
+      sig = (c % 3 == 0) ? 2 : (int)vbelow(&r, 3); per = (int)(c % 3);
+      st->indices.signalType = (opus_int8)sig; st->indices.quantOffsetType = (opus_int8)vbelow(&r, 2);
+      st->indices.GainsIndices[0] = (opus_int8)(cond ? vbelow(&r, 41) : vbelow(&r, 64));
+      for (k = 1; k < 4; k++) st->indices.GainsIndices[k] = (opus_int8)vbelow(&r, 41);
+      st->indices.NLSFIndices[0] = (opus_int8)vbelow(&r, 32);
+      for (i = 1; i <= st->LPC_order; i++) st->indices.NLSFIndices[i] = (opus_int8)vrange(&r, -10, 10);
+      st->indices.NLSFInterpCoef_Q2 = (opus_int8)vbelow(&r, 5);
+      st->indices.lagIndex = (opus_int16)vrange(&r, -8, 16 * fs + 11);
+      ncb = fs == 8 ? (nb == 4 ? PE_NB_CBKS_STAGE2_EXT : PE_NB_CBKS_STAGE2_10MS) : (nb == 4 ? PE_NB_CBKS_STAGE3_MAX : PE_NB_CBKS_STAGE3_10MS);
+      st->indices.contourIndex = (opus_int8)vbelow(&r, ncb);
+      st->indices.PERIndex = (opus_int8)per;
+      /* every row of the selected codebook gets hit over the run, the last one most often */
+      for (k = 0; k < 4; k++) st->indices.LTPIndex[k] = (opus_int8)(vchance(&r, 30) ? (8 << per) - 1 : vbelow(&r, 8 << per));
+      st->indices.LTP_scaleIndex = (opus_int8)vbelow(&r, 3);
+      st->first_frame_after_reset = vchance(&r, 25); st->lossCnt = vchance(&r, 30) ? 1 + (int)vbelow(&r, 3) : 0;
+      st->LastGainIndex = (opus_int8)vbelow(&r, 64);
+      for (i = 0; i < st->LPC_order; i++) { v += vrange(&r, 300, 32000 / 17); st->prevNLSF_Q15[i] = (opus_int16)v; }
+      printf("I silkparams synthparams %d %d %d %d %d,%d,%d,%d %d %d %d %d\n", fs, nb, sig, per, st->indices.LTPIndex[0], st->indices.LTPIndex[1],
+             st->indices.LTPIndex[2], st->indices.LTPIndex[3], st->indices.LTP_scaleIndex, st->indices.NLSFInterpCoef_Q2,
+             st->first_frame_after_reset, st->lossCnt);
+      fflush(stdout);
+      vreg_reset();
+      vreg_add("GainsIndices", st->indices.GainsIndices, MAX_NB_SUBFR, 1, 0);
+      vreg_add("LTPIndex", st->indices.LTPIndex, MAX_NB_SUBFR, 1, 0);
+      vreg_add("NLSFIndices", st->indices.NLSFIndices, MAX_LPC_ORDER + 1, 1, 0);
+      vreg_add("prevNLSF_Q15", st->prevNLSF_Q15, MAX_LPC_ORDER, sizeof(opus_int16), 0);
+      vreg_add("PredCoef_Q12", ctl->PredCoef_Q12, 2 * MAX_LPC_ORDER, sizeof(opus_int16), 0);
+      vreg_add("LTPCoef_Q14", ctl->LTPCoef_Q14, LTP_ORDER * MAX_NB_SUBFR, sizeof(opus_int16), 0);
+      vreg_add("Gains_Q16", ctl->Gains_Q16, MAX_NB_SUBFR, sizeof(opus_int32), 0);
+      vreg_add("pitchL", ctl->pitchL, MAX_NB_SUBFR, sizeof(opus_int), 0);
+      vreg_add("LTP_vq_0", (void *)silk_LTP_vq_ptrs_Q7[0], 8 * LTP_ORDER, 1, 0);
+      vreg_add("LTP_vq_1", (void *)silk_LTP_vq_ptrs_Q7[1], 16 * LTP_ORDER, 1, 0);
+      vreg_add("LTP_vq_2", (void *)silk_LTP_vq_ptrs_Q7[2], 32 * LTP_ORDER, 1, 0);
+      cur_phase = 0; recording = 1;
+      verif_decode_parameters(st, ctl, cond ? CODE_CONDITIONALLY : CODE_INDEPENDENTLY);
+      recording = 0;
+      printf("O OK "); print_extents(par_names, NEL(par_names)); printf("\n");
+      vreg_reset();
+   }
+   free(st); free(ctl);
+}
+
 int main(int argc, char **argv)
 {
    signal(SIGABRT, vabort_jump);
    if (argc >= 4 && !strcmp(argv[1], "core")) run_core(strtoull(argv[2], 0, 10), atol(argv[3]));
+   else if (argc >= 4 && !strcmp(argv[1], "params")) run_params(strtoull(argv[2], 0, 10), atol(argv[3]));
    else if (argc >= 4 && !strcmp(argv[1], "frames")) run_frames(strtoull(argv[2], 0, 10), atol(argv[3]));
    else { fprintf(stderr, "usage: c18_synthidx core <seed> <nrand> | frames <seed> <nhist>\n"); return 64; }
    fflush(stdout);
